@@ -618,11 +618,15 @@ def limiter_machine(rep, lib, rid="C08-LIMITER-MACHINE"):
     ctor = lib.bodies.get("limits::Limiter::create_process")
     init_ok = False
     if ctor is not None:
-        for bb, idx, place, rv, _ in ctor.assignments():
-            if rv["k"] == "agg" and rv.get("adt") == "limits::Limiter":
-                named = dict(zip(rv["fields"], rv["ops"]))
-                init_ok = named["skipped"].get("int") == 0 and named["passed"].get("int") == 0 and \
-                    named["skipped"].get("k") == "const" and named["passed"].get("k") == "const"
+        # evaluated: whatever the parameters are, every Limiter the constructor builds has skipped = passed = 0
+        res_ = PE(ctor, None, eq_ok=common.derived_eq_ok(lib), crate=lib).run()
+        built = [(rv_, vals_) for bb_, idx_, rv_, vals_ in res_.aggs if rv_.get("adt") == "limits::Limiter"]
+        if built:
+            init_ok = True
+            for rv_, vals_ in built:
+                named = dict(zip(rv_["fields"], vals_))
+                if named.get("skipped") != ("i", 0) or named.get("passed") != ("i", 0):
+                    init_ok = False
     if init_ok:
         r.ok("Limiter/initial-state", "skipped = 0, passed = 0", ctor.where(), nontrivial=False)
     else:
